@@ -28,6 +28,7 @@ def check(ctx, prog):
     propagators.rule_mirror_entail(ctx, prog)
     propagators.rule_vector_width(ctx, prog)
     propagators.rule_interval_sum(ctx, prog)
+    propagators.rule_affine_bound(ctx, prog)  # bounds derived by division: own contribution added back, stored on the right side, rounded towards the inside
     engine.rule_queue_writers(ctx, prog, thorough=thorough)
     shaving.rule_shave_bound(ctx, prog)  # scope: the un-probing re-queues the watchers of the bound it removed
     shaving.rule_shaving_loop(ctx, prog)  # scope: what shaving hands back is a propagated state with the status of its last pass
